@@ -164,6 +164,34 @@ def corpus(env, rng, which):
         ops = ["openvol 0 -> $v", "openroot $v -> $r", "open $r %s RWA -> $b" % hx("BIG4G.BIN"), "write $b 512 9", "len $b", "off $b", "close $b"]
         env.add_script("corpus-maxsize", path, (1, 4, 4), ops, 5000, (), meta)
 
+def rollback_scripts(env, rng, count, geos=("f16_min", "f32_min", "f32_exact", "f16_spc2")):
+    """directed: a mkdir / create that fails AFTER it took a cluster - the parent directory is exactly full and the
+    volume has exactly one free cluster (mkdir takes it, the parent cannot grow), or the FAT16 root is full - so the
+    release path runs; then an in-place write + close so that the FAT32 information sector is stored"""
+    hx = fsgen.hx
+    for j in range(count):
+        geo = fsgen.geometry(rng, None, [geos[j % len(geos)]])
+        full_root = (j % 3 == 2)
+        # exactly ONE free cluster must remain (the entry of the filler file may itself grow a FAT32 root by a cluster)
+        seed0 = rng.below(1 << 30)
+        for fl in (1, 2, 3):
+            r2 = V.SplitMix(seed0)
+            img, meta = fsgen.build_image(r2, geo, populate=1, exact_dir=True, free_left=fl, full_root=full_root and not geo[1]["fat32"])
+            d0 = img.build()
+            g0 = fatck.mount(d0, meta["slot"])
+            if g0 is not None and g0.N - len(fatck.used_clusters(d0, g0)) == 1:
+                break
+        path, dev = env.new_image(img, "rollback%d" % j)
+        meta = dict(meta); meta["dev0"] = dev
+        ops = ["openvol %d -> $v" % meta["slot"], "openroot $v -> $r", "opendir $r %s -> $s" % hx("SUB"),
+               "mkdir $s %s" % hx("NEWD1"), "mkdir $r %s" % hx("NEWD2"), "open $s %s RWC -> $n" % hx("NEWF.X"), "close $n",
+               "mkdir $s %s" % hx("NEWD3")]
+        tgt = next((p_ for p_ in sorted(meta["files"]) if meta["files"][p_].size > 8 and p_.count("/") == 1), None)
+        if tgt:
+            ops += ["open $r %s RWA -> $t" % hx(tgt[1:]), "seekstart $t 2", "write $t 3 9", "close $t"]
+        ops += ["iter $s", "closedir $s", "closedir $r", "closevol $v"]
+        env.add_script("rollback%03d" % j, path, (1, 4, 4), ops, 5000, (), meta)
+
 def grow_scripts(env, rng, count, dirty=0, big=False):
     """directed: directories whose clusters are exactly full (or multi-cluster), so that a create has to grow them
     or has to find its slot in a later cluster"""
@@ -680,6 +708,7 @@ def check_C05(run, replay=None):
                 ops.append("write $f%d %d %d" % (c, bpc, c * 7 + w))
             ops += ["close $f%d" % c, "delete $r %s" % fsgen.hx("FILL.DAT")]
         env.add_script("cyc%03d" % j, path, (1, 4, 4), ops, 5000, (), meta)
+    rollback_scripts(env, rng, 6 if run.tier == "quick" else 24)
     env.run_all(writes=True)
     bad = 0
     for sc in env.scripts:
@@ -1375,6 +1404,7 @@ def check_C16(run, replay=None):
     F.std_scenarios(env, rng, n // 2, prof, nops=(20, 50), kind="fat32")
     F.std_scenarios(env, rng, n // 4, prof, nops=(20, 50), kind="fat32", img_kw=dict(free_left=2))
     F.std_scenarios(env, rng, n // 4, prof, nops=(20, 50), kind="fat16")
+    rollback_scripts(env, rng, 4 if run.tier == "quick" else 16, geos=("f32_min", "f32_exact"))
     # directed: every information-sector variant, allocate and free several clusters, flush and close the volume
     for j, gname in enumerate(["f32_min", "f32_stale0", "f32_stalehigh", "f32_oor", "f32_unkcount", "f32_root5", "f32_exact"] * (1 if run.tier == "quick" else 4)):
         geo = fsgen.geometry(rng, None, [gname])
